@@ -3,6 +3,7 @@ from pyvc.lang import *
 
 @contract("dissect.cobaltstrike.utils:netbios_encode", props=["C20", "C04"])
 def _(data: "bytes", offset: "int"):
+    pure()
     raises(ValueError, when=exists(lambda i: not (0 <= nb_byte(data, offset, i) < 256), 0, 2 * len(data)))
     ensures(nb_enc_post(data, offset, result))
     ensures(forall(lambda i: 0 <= nb_byte(data, offset, i) < 256, 0, 2 * len(data)))
@@ -16,14 +17,15 @@ def _(data: "bytes", offset: "int"):
 
 @contract("dissect.cobaltstrike.utils:netbios_decode", props=["C20", "C04"])
 def _(data: "bytes", offset: "int"):
-    requires(len(data) % 2 == 0)
-    raises(ValueError, when=exists(lambda j: not (0 <= (data[2 * j] - offset) * 16 + (data[2 * j + 1] - offset) < 256),
-                                   0, len(data) // 2))
+    pure()
+    raises(IndexError, when=len(data) % 2 == 1)
+    raises(ValueError, when=len(data) % 2 == 0 and exists(
+        lambda j: not (0 <= (data[2 * j] - offset) * 16 + (data[2 * j + 1] - offset) < 256), 0, len(data) // 2))
     ensures(nb_dec_post(data, offset, result))
     returns("bytes")
     local(barray="ilist")
     loop(0, index="k", invariant=[
-        len(barray) == k,
+        len(barray) == k, 2 * k <= len(data),
         forall(lambda j: barray[j] == (data[2 * j] - offset) * 16 + (data[2 * j + 1] - offset), 0, k)])
     domain(data=bytes_(alphabet=b"\x41\x45\x4f\x61\x70", maxlen=4), offset=ints(0x41, 0x61, 0))
 
@@ -49,6 +51,7 @@ def seqsum_nonneg(s: "ilist"):
 
 @contract("dissect.cobaltstrike.utils:xor", props=["C20", "C04", "C01", "C09", "C15", "C17"])
 def _(data: "bytes", key: "bytes"):
+    pure()
     ensures(xor_post(data, key, result))
     returns("bytes")
     ghost(entry=True, do=[seqsum_nonneg(key)])
